@@ -169,8 +169,11 @@ def reserve_pair(eng, res, rule="R-RESERVE-PAIR"):
         flt = idx_t.args[1]
         inv_ok = isinstance(flt, ast.Call) and callee_name(flt) == "BondDescriptor" and flt.args and isinstance(flt.args[0], ast.Call) \
             and callee_name(flt.args[0]) == "_create_compatible_bond_text" and src(flt.args[0].args[0]) == "self.right_terminal"
+    # the list it is selected in is decided here; a filter descriptor the rule cannot trace back to the right terminal (built once
+    # in the enclosing scope, cached, …) is "not recognised", not "wrong"
+    unknown_filter = bool(sel_ok and not inv_ok and not (isinstance(idx_t.args[1], ast.Call) and callee_name(idx_t.args[1]) == "BondDescriptor") and not (isinstance(idx_t.args[1], ast.Constant)))
     res.ob(rule, fin, "reserve-selection", "the reserved descriptor is selected in the molecule's own open list among those compatible with the descriptor derived from the right terminal",
-           D, sel_ok and inv_ok, f"deleted index {src(idx_t)[:100] if idx_t is not None else None}")
+           D, sel_ok and inv_ok, f"deleted index {src(idx_t)[:100] if idx_t is not None else None}", soft=unknown_filter)
     # flag variable: assigned the same element before the delete, in the same block
     flag = None
     blk = getattr(D, "_parent")
